@@ -1,0 +1,80 @@
+//go:build verif
+
+package hh
+
+// Verification hooks (build tag "verif" only): the unexported queue, driven directly.
+
+import (
+	"os"
+	"time"
+
+	"github.com/influxdata/influxdb/models"
+)
+
+type VerifQueue struct{ q *queue }
+
+func VerifNewQueue(dir string, maxSize int64, maxWrites int) (*VerifQueue, error) {
+	q, err := newQueue(dir, maxSize, maxWrites)
+	if err != nil {
+		return nil, err
+	}
+	return &VerifQueue{q}, nil
+}
+
+func (v *VerifQueue) Open() error                       { return v.q.Open() }
+func (v *VerifQueue) Close() error                      { return v.q.Close() }
+func (v *VerifQueue) Append(b []byte) error             { return v.q.Append(b) }
+func (v *VerifQueue) Current() ([]byte, error)          { return v.q.Current() }
+func (v *VerifQueue) Advance() error                    { return v.q.Advance() }
+func (v *VerifQueue) Truncate() error                   { return v.q.Truncate() }
+func (v *VerifQueue) Empty() bool                       { return v.q.Empty() }
+func (v *VerifQueue) SetMaxSegmentSize(n int64) error   { return v.q.SetMaxSegmentSize(n) }
+func (v *VerifQueue) PurgeOlderThan(t time.Time) error  { return v.q.PurgeOlderThan(t) }
+func (v *VerifQueue) DiskUsage() int64 {
+	v.q.mu.RLock()
+	defer v.q.mu.RUnlock()
+	return v.q.diskUsage()
+}
+
+// SegmentIDs lists the ids of the open segments, head first.
+func (v *VerifQueue) SegmentIDs() []uint64 {
+	v.q.mu.RLock()
+	defer v.q.mu.RUnlock()
+	var ids []uint64
+	for _, s := range v.q.segments {
+		ids = append(ids, s.id)
+	}
+	return ids
+}
+
+// SetSegmentModTime sets the modification time of the i-th open segment's file.
+func (v *VerifQueue) SetSegmentModTime(i int, t time.Time) error {
+	v.q.mu.RLock()
+	defer v.q.mu.RUnlock()
+	if i < 0 || i >= len(v.q.segments) {
+		return os.ErrNotExist
+	}
+	return os.Chtimes(v.q.segments[i].path, t, t)
+}
+
+// HoldTokens takes n tokens of the append limiter (as n concurrent appenders would) and
+// returns a function releasing them.
+func (v *VerifQueue) HoldTokens(n int) func() {
+	taken := 0
+	for i := 0; i < n; i++ {
+		if v.q.limiter.TryTake() {
+			taken++
+		}
+	}
+	return func() {
+		for i := 0; i < taken; i++ {
+			v.q.limiter.Release()
+		}
+	}
+}
+
+func VerifMarshalWrite(shardID uint64, points []models.Point) []byte { return marshalWrite(shardID, points) }
+func VerifUnmarshalWrite(b []byte) (uint64, [][]byte, error)          { return unmarshalWrite(b) }
+
+const VerifDefaultSegmentSize = defaultSegmentSize
+const VerifFooterSize = footerSize
